@@ -60,3 +60,165 @@ pub fn escaped_tab() -> &'static [u8; 256] {
 pub fn quote_tab() -> &'static [(u8, [u8; 8]); 256] {
     &crate::util::string::QUOTE_TAB
 }
+
+// ---------------------------------------------------------------------------------------------
+// Atomic pointer shim (C18): the two lazily published caches (`lazyvalue::value::Inner::unescaped`
+// and `lazyvalue::owned::LazyRaw::parsed`) go through this type when the hooks are on. It behaves
+// like `std::sync::atomic::AtomicPtr` and tells a per-thread observer about every operation, before
+// (where the observer may block the thread, and may force a weak compare-exchange to fail) and after.
+
+use std::{
+    cell::RefCell,
+    sync::atomic::{AtomicPtr as StdAtomicPtr, Ordering},
+};
+
+#[derive(Clone, Copy, Debug, PartialEq, Eq)]
+pub enum AtomicOp {
+    Load,
+    CompareExchange,
+    CompareExchangeWeak,
+}
+
+#[derive(Clone, Copy, Debug)]
+pub struct AtomicEvent {
+    pub op: AtomicOp,
+    /// address of the cell
+    pub cell: usize,
+    /// false: about to happen; true: happened
+    pub done: bool,
+    /// value loaded / witnessed (after), 0 = null
+    pub seen: usize,
+    /// value stored by a successful compare-exchange (after)
+    pub stored: usize,
+    /// outcome of a compare-exchange (after)
+    pub success: bool,
+}
+
+/// what the observer answers to a `done == false` event
+#[derive(Clone, Copy, Debug, Default)]
+pub struct AtomicDecision {
+    /// make a weak compare-exchange fail although the expected value is there
+    pub spurious_failure: bool,
+}
+
+type Observer = Box<dyn FnMut(AtomicEvent) -> AtomicDecision>;
+
+thread_local! {
+    static OBSERVER: RefCell<Option<Observer>> = const { RefCell::new(None) };
+}
+
+/// install (or remove) the observer of the calling thread
+pub fn set_atomic_observer(f: Option<Observer>) {
+    OBSERVER.with(|o| *o.borrow_mut() = f);
+}
+
+fn observe(ev: AtomicEvent) -> AtomicDecision {
+    OBSERVER.with(|o| match o.try_borrow_mut() {
+        Ok(mut g) => match g.as_mut() {
+            Some(f) => f(ev),
+            None => AtomicDecision::default(),
+        },
+        Err(_) => AtomicDecision::default(),
+    })
+}
+
+pub struct ShimAtomicPtr<T>(StdAtomicPtr<T>);
+
+impl<T> ShimAtomicPtr<T> {
+    pub const fn new(p: *mut T) -> Self {
+        ShimAtomicPtr(StdAtomicPtr::new(p))
+    }
+
+    fn cell(&self) -> usize {
+        self as *const _ as usize
+    }
+
+    pub fn get_mut(&mut self) -> &mut *mut T {
+        self.0.get_mut()
+    }
+
+    pub fn load(&self, order: Ordering) -> *mut T {
+        let mut ev = AtomicEvent {
+            op: AtomicOp::Load,
+            cell: self.cell(),
+            done: false,
+            seen: 0,
+            stored: 0,
+            success: true,
+        };
+        observe(ev);
+        let p = self.0.load(order);
+        ev.done = true;
+        ev.seen = p as usize;
+        observe(ev);
+        p
+    }
+
+    fn cas(
+        &self,
+        op: AtomicOp,
+        current: *mut T,
+        new: *mut T,
+        success: Ordering,
+        failure: Ordering,
+    ) -> Result<*mut T, *mut T> {
+        let mut ev = AtomicEvent {
+            op,
+            cell: self.cell(),
+            done: false,
+            seen: 0,
+            stored: 0,
+            success: false,
+        };
+        let d = observe(ev);
+        let r = if op == AtomicOp::CompareExchangeWeak && d.spurious_failure {
+            // a spurious failure reports the value that is there, which may be the expected one
+            Err(self.0.load(failure))
+        } else {
+            self.0.compare_exchange(current, new, success, failure)
+        };
+        ev.done = true;
+        match r {
+            Ok(p) => {
+                ev.success = true;
+                ev.seen = p as usize;
+                ev.stored = new as usize;
+            }
+            Err(p) => ev.seen = p as usize,
+        }
+        observe(ev);
+        r
+    }
+
+    pub fn compare_exchange(
+        &self,
+        current: *mut T,
+        new: *mut T,
+        success: Ordering,
+        failure: Ordering,
+    ) -> Result<*mut T, *mut T> {
+        self.cas(AtomicOp::CompareExchange, current, new, success, failure)
+    }
+
+    pub fn compare_exchange_weak(
+        &self,
+        current: *mut T,
+        new: *mut T,
+        success: Ordering,
+        failure: Ordering,
+    ) -> Result<*mut T, *mut T> {
+        self.cas(
+            AtomicOp::CompareExchangeWeak,
+            current,
+            new,
+            success,
+            failure,
+        )
+    }
+}
+
+impl<T> std::fmt::Debug for ShimAtomicPtr<T> {
+    fn fmt(&self, f: &mut std::fmt::Formatter<'_>) -> std::fmt::Result {
+        self.0.fmt(f)
+    }
+}
